@@ -113,9 +113,10 @@ def check_case(run, case, tier='quick'):
                               observed=got[max(0, n - 2):n + 3], expected=U[max(0, n - 2):n + 1]); return
             run.case(h([case.get('spec', case.get('train')), al, n]) if n in inside else None)
         # ---- CLI: stdout vs -o file, and --size
-        if rng.random() < (0.15 if tier == 'quick' else 0.1):
+        if rng.random() < (0.25 if tier == 'quick' else 0.1):
             fl = ['--all_lower'] if al else []
-            n = rng.choice([None, rng.choice(Ns)])
+            # sizes: none, one of the tried N, the list length itself, a size beyond the list (the run ends because the grammar is exhausted, not because N is reached)
+            n = rng.choice([None, rng.choice(Ns), total, total + rng.randint(1, 3), total + rng.randint(1, 3)])
             sz = [] if n is None else ['-s', str(n)]
             out, err, rc, to = cli.run_cli('prince_ling.py', ['-r', name] + fl + sz, stdin_mode='devnull', max_out=8 << 20)
             ofile = os.path.join(path, 'prince_out.txt')
